@@ -33,7 +33,7 @@ QUICK_JOBS = 12
 ENTRY = ["Grid2D.from_mask", "derive_grid.all_false", "derive_grid.unmasked", "derive_grid.edge", "derive_grid.border", "Grid2D.blurring_grid_from",
          "Grid2D.padded_grid_from", "OverSamplerUniform.over_sampled_grid", "BorderRelocator.sub_grid", "Mask2D.mask_centre", "geometry.extent",
          "Mask2D.zoom_mask_unmasked", "Array2D.zoomed_around_mask", "Grid2D.grid_2d_radial_projected_from", "Overlay.image_plane_mesh_grid_from",
-         "Mask2D.resized_from", "Imaging.apply_mask", "Imaging.apply_noise_scaling", "Imaging.apply_noise_scaling(s2n)", "Imaging.apply_over_sampling",
+         "Mask2D.resized_from", "Imaging.apply_mask", "Imaging.apply_mask(auto-padded)", "Imaging.apply_noise_scaling", "Imaging.apply_noise_scaling(s2n)", "Imaging.apply_over_sampling",
          "Imaging.trimmed_after_convolution_from", "SimulatorImaging.via_image_from", "preprocess.noise_map_with_signal_to_noise_limit_from",
          "geometry.pixel_coordinates_2d_from", "geometry.grid_pixel_indexes_2d_from", "MapperRectangular", "MapperDelaunay",
          "BorderRelocator.relocated_grid_from", "derive_mask.origins"]
@@ -192,6 +192,19 @@ def world(ctx, rng_seed, m, ps, origin, kshape):
         ob.coord("Imaging.apply_mask", "apply_mask.grids.pixelization", md.grids.pixelization)
         ob.coord("Imaging.apply_mask", "apply_mask.grids.blurring", md.grids.blurring)
     run("Imaging.apply_mask", masked)
+
+    def masked_padded():
+        # a mask reaching the frame, so that apply_mask takes the automatic-padding branch (blurring region leaves the frame)
+        m2 = m.copy()
+        m2[0, :] = r.random(W) < 0.5
+        m2[:, -1] = r.random(H) < 0.5
+        m2[0, 0] = False
+        md = dataset().apply_mask(mask=aa.Mask2D(mask=m2, pixel_scales=ps, origin=tuple(origin)))
+        ob.inv("Imaging.apply_mask(auto-padded)", "apply_mask_padded.shape", np.array(md.data.shape_native))
+        obs_ds("Imaging.apply_mask(auto-padded)", "apply_mask_padded", md)
+        ob.coord("Imaging.apply_mask(auto-padded)", "apply_mask_padded.grids.blurring", md.grids.blurring)
+    if kshape != (1, 1):
+        run("Imaging.apply_mask(auto-padded)", masked_padded)
     run("Imaging.apply_noise_scaling", lambda: obs_ds("Imaging.apply_noise_scaling", "noise_scaling", dataset().apply_noise_scaling(mask=mask, noise_value=1e8)))
     run("Imaging.apply_noise_scaling(s2n)", lambda: obs_ds("Imaging.apply_noise_scaling(s2n)", "noise_scaling_s2n", dataset().apply_noise_scaling(mask=mask, signal_to_noise_value=2.0)))
     run("Imaging.apply_over_sampling", lambda: obs_ds("Imaging.apply_over_sampling", "apply_over_sampling",
